@@ -23,6 +23,11 @@
               j ...        AddrComponent() certhashes decoded
        hash / digest ids are small integers the harness assigns per distinct byte string.
 
+   kind 5 : as kind 1, but of a real LISTENER that stays open: "newCertManager" is
+       transport.Listen, vs ve vh is the leaf certificate presented in a real
+       QUIC/TLS handshake against the listener at that instant, j.. are the
+       certhashes of listener.Multiaddr().  Same model, same monitor.
+
    kind 2 : one verifyRawCerts call
        2 n CERT^n  k (code id)^k  res
        CERT = id parses pubrsa sig nb na    (see Model.xcert; nb/na relative to time.Now())
@@ -406,6 +411,8 @@ Definition decode_case (l : list Z) : option dcase :=
       option_map (DMgr true b0 b1 t0) (decode_events (S (length r)) r)
   | 4 :: b0 :: b1 :: t0 :: r =>
       option_map (DMgr false b0 b1 t0) (decode_events (S (length r)) r)
+  | 5 :: b0 :: b1 :: t0 :: r =>
+      option_map (DMgr true b0 b1 t0) (decode_events (S (length r)) r)
   | 2 :: r =>
       match take_chain r with
       | Some (ch, r1) => match take_plist r1 with
